@@ -24,7 +24,7 @@ def patterns(a, b, tier, seed):
     rnd = random.Random(97 * a + 13 * b + seed)
     want = 4 if tier == 'quick' else 12
     while len(pats) < want:
-        xs = [0]
+        xs = [2]        # non-zero origin
         for _ in range(n - 1):
             xs.append(xs[-1] + rnd.choice((1, 2, 3, 4)))
         if xs not in pats:
